@@ -77,6 +77,14 @@ CLAIMED = {
             "combination within the bounds is executed on the real code and compared with the model.",
             "Trusted: CrossHair + z3; cap names/URLs are catalogue constants; llsd formatter constructor run untraced.",
             "DESIGN.md §1 C16"),
+    "C18": ("CrossHair/z3 symbolic execution of the real filter nodes / PEG-compiled filters with symbolic leaf truth values, "
+            "of the real _val_matches and LLUDPMessageLogEntry.matches over an operator x type matrix with symbolic values, "
+            "and of all bounded operation sequences on the real FilteringMessageLogger against a reference model",
+            "Bounded symbolic model checking: filter programs (trees of depth <=3, chains) x all truth assignments; "
+            "comparison matrix with symbolic ints/bytes; logger histories of the stated depth.",
+            "Trusted: CrossHair + z3; strings in the ordering matrix come from a catalogue; log entries are minimal stubs "
+            "for the view obligations.",
+            "DESIGN.md §1 C18"),
     "C19": ("CrossHair/z3 symbolic execution of the real HippoClientProtocol.datagram_received and Circuit methods from a "
             "symbolic circuit pre-state (ids already seen, next id, retry budget) over <=3 symbolic arrivals / ack forms / "
             "timer rounds, compared with a reference model of the dedupe window and the resend timer",
